@@ -122,7 +122,7 @@ def clean_table(rnd, **kw):
     return table
 
 
-def gen_event(rnd, table):
+def gen_event(rnd, table, valued_reset=True):
     n = rnd.choice([1, 1, 2, 2, 3, 4])
     opts = rnd.sample(table, min(n, len(table)))
     items = []
@@ -131,7 +131,8 @@ def gen_event(rnd, table):
         typ = o["type"]
         shape = rnd.choice(["unset", "single", "multi", "multi"])
         vals = CT.gen_values(rnd, typ, shape)
-        if shape == "unset" and CT.kind_of(typ) == "scalar" and typ not in CT.STR_TYPES and rnd.random() < 0.6:
+        if valued_reset and shape == "unset" and CT.kind_of(typ) == "scalar" and typ not in CT.STR_TYPES \
+                and rnd.random() < 0.6:
             # tagged class "reset of an always-valued type": the option is announced with its bare keyword
             # (DESIGN C11 L keeps this out of GETCONF; the statement's "zero values" covers it for events)
             vals = []
@@ -182,7 +183,7 @@ def gen_case(rnd, mode):
         nget = len(table)
         case["attach_events"] = []
         for at in sorted(rnd.sample(range(nget), min(nget, rnd.choice([1, 1, 2, 3])))):
-            ev = gen_event(rnd, table)
+            ev = gen_event(rnd, table, valued_reset=False)     # GETCONF must stay answerable per type afterwards
             case["attach_events"].append({"at": at, "when": rnd.choice(["before-reply", "after-reply"]),
                                           "items": ev["items"]})
     listy = [o for o in table if CT.is_listy(o["type"])]
@@ -391,20 +392,25 @@ class Run(object):
             ev = pending_ev.pop(key, None)
             if ev is None:
                 return
+            was_unset = {n for n in self.table if not tor.conf.get(n)}
             changed = tor.external_change([(k, v) for k, v in ev["items"]])
             if not changed:
                 rec.count("attach_events_without_change")
                 return
             rec.count("attach_events_delivered")
             fetched = {x.lower() for x in seen["fetched"]}
-            if key[1] == "before-reply" and seen["fetched"]:
-                fetched.discard(seen["fetched"][-1].lower())      # its GETCONF is answered after the change
+            current = seen["fetched"][-1].lower() if seen["fetched"] else None
+            if key[1] == "before-reply":
+                fetched.discard(current)      # its GETCONF is answered after the change
             for n in changed:
                 if n in self.table:
                     o = self.table[n]
-                    self.touch[n] = "%s+%s+during-attach+%s" % (
-                        klass(o), count_class(o, tor.conf.get(n)),
-                        "already-fetched" if n.lower() in fetched else "not-yet-fetched")
+                    where = "already-fetched" if n.lower() in fetched else "not-yet-fetched"
+                    if where == "already-fetched" and n.lower() == current and o["type"] == CT.PORTLINES \
+                            and n in was_unset and not self.dflt(n):
+                        # the attach still has a second round trip (GETCONF __FooPort) to make for this option
+                        where = "mid-fetch"
+                    self.touch[n] = "%s+%s+during-attach+%s" % (klass(o), count_class(o, tor.conf.get(n)), where)
                     rec.seen("attach_classes", self.touch[n])
 
         def on_line(tor, line):
